@@ -140,9 +140,41 @@ pub fn run_scenario(seed: u64, i: usize, tier: Tier) -> Outcome {
     o
 }
 
+/// The limits reach the tracer: the tracer the application starts (its own `start_tracer`) runs
+/// with the configured first-ttl / max-ttl / max-inflight, not with the library defaults.
+fn application_job(seed: u64) -> Outcome {
+    let mut o = Outcome::default();
+    let mut r = crate::prng::Prng::new(seed ^ 0xA99);
+    for k in 0..48 {
+        let first = if k < 8 { 1 } else { r.range(1, 254) as u8 };
+        let max = r.range(u64::from(first), 254) as u8;
+        let inflight = if k < 8 { [1u8, 2, 3, 23, 24, 25, 64, 255][k] } else { r.range(1, 255) as u8 };
+        let res = crate::framework::guarded(|| crate::props::c16::started_tracer_limits(first, max, inflight));
+        match res {
+            Ok(Ok(got)) => {
+                o.hit("application_tracer_runs_with_the_configured_limits");
+                if got != (first, max, inflight) {
+                    o.violate(
+                        "application_tracer_runs_with_the_configured_limits",
+                        format!("{}{}{}", if got.0 != first { "first-ttl " } else { "" }, if got.1 != max { "max-ttl " } else { "" }, if got.2 != inflight { "max-inflight" } else { "" }).trim().to_string(),
+                        format!("trip --first-ttl {first} --max-ttl {max} --max-inflight {inflight}: the started tracer has first-ttl {} max-ttl {} max-inflight {}", got.0, got.1, got.2),
+                        json!({"how": format!("vcheck C06 --seed {seed}"), "first_ttl": first, "max_ttl": max, "max_inflight": inflight}),
+                    );
+                }
+            }
+            Ok(Err(e)) => o.count(&format!("application_configurations_not_started:{}", e.chars().take(40).collect::<String>()), 1),
+            Err(p) if p.in_repo() => o.violate("no_panic", format!("application|{}", p.site()), format!("panic at {}:{}: {}", p.file, p.line, p.message), json!({"first_ttl": first, "max_ttl": max, "max_inflight": inflight})),
+            Err(p) => o.harness_error = Some(format!("harness panic {}:{} {}", p.file, p.line, p.message)),
+        }
+    }
+    o
+}
+
+const SCHED_CLAUSES: [&str; 6] = ["ttl_order_no_gaps", "never_above_max_ttl", "no_send_after_target_answered", "never_above_established_distance", "inflight_window", "every_round_sends_first_ttl"];
+
 pub fn run(tier: Tier, seed: u64, only: Option<usize>) -> i32 {
     let mut rep = Report::new("C06", "exploration", tier, seed);
-    rep.rule = "scenario = protocol x family x (first-ttl in {1,2,5,24,25,64,200,254}, max-ttl = first + {0,1,10,63,253}, max-inflight in {1,2,3,24,64,255}) x path length (at / inside / beyond the probed window) x response delay (before / between / after sends, beyond the round) x silent prefixes and lossy hops x uneven ECMP (half of the flows cross 1..3 more routers) x transient send failures; TCP with address-in-use re-issues; non-trivial = more sends than rounds; distinct by (protocol, configuration shape)".into();
+    rep.rule = "scenario = protocol x family x (first-ttl in {1,2,5,24,25,64,200,254}, max-ttl = first + {0,1,10,63,253}, max-inflight in {1,2,3,24,64,255}) x path length (at / inside / beyond the probed window) x response delay (before / between / after sends, beyond the round) x silent prefixes and lossy hops x uneven ECMP (half of the flows cross 1..3 more routers) x transient send failures; TCP with address-in-use re-issues; plus stale-slot worlds (late / never-sent sequences aimed at slots of earlier rounds, before and after a sequence wrap) judged by the same clauses; non-trivial = more sends than rounds; distinct by (protocol, configuration shape)".into();
     rep.assumptions = vec![
         "the in-flight clause is judged against the farthest genuine responder of the round (first-ttl - 1 if none), which is what the property states; the implementation is allowed to be stricter".into(),
         "'target distance established' = a genuine target response to the probe at the topology's true distance was read (paths here are stable)".into(),
@@ -157,7 +189,22 @@ pub fn run(tier: Tier, seed: u64, only: Option<usize>) -> i32 {
             }
             rep.merge(o);
         }
-        None => rep.run_parallel(n, |i| run_scenario(seed, i, tier)),
+        None => {
+            // stale-slot worlds (the C03 workload: never-sent sequences aimed at buffer slots that
+            // still hold an awaited probe of an earlier round, every other one after a sequence
+            // wrap), judged by the scheduling clauses: a late or forged packet must not move the
+            // farthest-responder / target-distance bookkeeping the send decision reads
+            let cells = crate::scen::all_cells(false);
+            let n_stale = tier.pick(96, 960);
+            rep.run_parallel(n + n_stale, |i| {
+                if i < n {
+                    run_scenario(seed, i, tier)
+                } else {
+                    crate::props::c03::run_stale(seed ^ 0xC06, i - n, &cells, tier).retain_clauses(&SCHED_CLAUSES, "stale-slot")
+                }
+            });
+            rep.merge(application_job(seed));
+        }
     }
     rep.finish()
 }
